@@ -273,6 +273,15 @@ def run(ctx):
                   "src_a": "const C: u8 = max(PARTY_0::A + 200u8, 50u8);\npub fn main(x: u8) -> u8 { x ^ C }\n",
                   "src_b": "pub fn main(x: u8) -> u8 { x ^ 50u8 }\n", "params": [["x", {"k": "int", "t": "u8"}]], "args": [[0], [255]], "cg": cg})
 
+    # a constant whose own definition wraps, referred to by a later constant under max (repaired defect 7d34fdc)
+    cg2 = ConstGen(random.Random(0))
+    cg2.decls.append(("A", "u8", "PARTY_0::X + 200u8", ["add"]))
+    cg2.decls.append(("C", "u8", "max(A, 50u8)", ["max"]))
+    cg2.supplied = {"PARTY_0": {"X": ("u8", 100)}}
+    cases.append({"id": max(c["id"] for c in cases) + 1, "seed": 0, "kind": "value-const-ref-wraps",
+                  "src_a": "const A: u8 = PARTY_0::X + 200u8;\nconst C: u8 = max(A, 50u8);\npub fn main(x: u8) -> u8 { x ^ C }\n",
+                  "src_b": "pub fn main(x: u8) -> u8 { x ^ 50u8 }\n", "params": [["x", {"k": "int", "t": "u8"}]], "args": [[0], [255]], "cg": cg2})
+
     def req(c, src, consts, idx):
         return {"id": c["id"] * 4 + idx, "op": "compile_eval", "src": src, "kind": "ssa", "dedup": True, "consts": consts,
                 "inputs": [(["".join(gen_prog.party_inputs(c["params"], a))] if c.get("one_party") else gen_prog.party_inputs(c["params"], a)) for a in c["args"]]}
